@@ -17,10 +17,11 @@ class Codes:
         self.rows = {}; self.cols = {}
         flat = store.reshape(self.n, -1)
         self.W = flat.shape[1]
-        self.concrete = all(t.is_const for t in flat.flat)
+        self.concrete = all(t.is_const or t.op == "nan" for t in flat.flat)
         for k in range(self.n):
             for j in range(self.W):
                 t = flat[k, j]
+                if t.op == "nan": continue
                 key = (round(float(t.val), 9) if self.concrete else t)
                 if key in self.rows and self.concrete:
                     # duplicated value in a concrete store: ambiguous -> mark
